@@ -76,6 +76,7 @@ const (
 	lClose
 	lTryClose
 	lTryPop
+	lTryClear
 )
 
 type cLabel struct {
@@ -277,6 +278,11 @@ func cStep(c cCfg, s0 *cState, l cLabel) (*cState, cOut, bool) {
 			return s, cOut{K: 3, R: cRes{K: 1}}, true
 		}
 		return s, cOut{K: 3, TryNone: true}, true
+	case lTryClear:
+		if k != kMQ {
+			return nil, cOut{}, false
+		}
+		return s, cOut{K: 2, B: s.closed && len(s.ctrl) == 0 && len(s.req) == 0}, true
 	}
 	return nil, cOut{}, false
 }
@@ -296,6 +302,8 @@ type cObs struct {
 	Len       int    `json:"len"`
 	HasClosed bool   `json:"hasclosed"`
 	Closed    bool   `json:"closed"`
+	HasWC     bool   `json:"haswc"` // a goroutine is blocked in WaitClose(ctx); WC: it has returned
+	WC        bool   `json:"wc"`
 }
 
 // one element of the emitted trace: a label with its observed result, or an observation
@@ -328,11 +336,13 @@ type cCand struct {
 	path *cPath
 }
 
-// a non-blocking call made by a lane, with what the implementation returned
+// a call made by a lane, with what the implementation returned.  Anyway: the retrying variant (AddReqAnyway,
+// AddAnyway, AddCtrlAnyway) of an add; its label is the add's (the last attempt)
 type cOp struct {
-	Op  int   `json:"op"`
-	X   int64 `json:"x"`
-	Out cOut  `json:"out"`
+	Op     int   `json:"op"`
+	X      int64 `json:"x"`
+	Anyway bool  `json:"anyway,omitempty"`
+	Out    cOut  `json:"out"`
 }
 
 type cLaunch struct {
@@ -380,6 +390,9 @@ func cStateMatches(s *cState, ob *cObs) bool {
 		return false
 	}
 	if ob.HasClosed && ob.Closed != s.closed {
+		return false
+	}
+	if ob.HasWC && ob.WC != s.closed {
 		return false
 	}
 	return true
@@ -547,6 +560,8 @@ func cCoqLabel(l cLabel) string {
 		return "LTryClose"
 	case lTryPop:
 		return "LTryPop"
+	case lTryClear:
+		return "LTryClear"
 	}
 	return "LClose"
 }
@@ -579,8 +594,12 @@ func cCoqObs(ob *cObs) string {
 	if ob.HasClosed {
 		cl = fmt.Sprintf("(Some %v)", ob.Closed)
 	}
-	return fmt.Sprintf("{| o_ret := [%s]; o_parked := %s; o_stuck := %s; o_len := %s; o_closed := %s |}",
-		strings.Join(rs, "; "), coqNatList(ob.Parked), coqNatList(ob.Stuck), ln, cl)
+	wc := "None"
+	if ob.HasWC {
+		wc = fmt.Sprintf("(Some %v)", ob.WC)
+	}
+	return fmt.Sprintf("{| o_ret := [%s]; o_parked := %s; o_stuck := %s; o_len := %s; o_closed := %s; o_wc := %s |}",
+		strings.Join(rs, "; "), coqNatList(ob.Parked), coqNatList(ob.Stuck), ln, cl, wc)
 }
 
 func cCoqCase(c cCfg, evs []cEvent) string {
